@@ -299,3 +299,6 @@ pub proof fn axiom_url_slash_ok(x: Seq<char>)
     ensures url_path_spec(request_url(slash() + x)).is_some(),
 {
 }
+
+// when process_static_resources reported an error (code e), the response carries that code
+pub open spec fn error_status_kept(e: int, status: int) -> bool { e != -1 ==> status == e }
